@@ -582,7 +582,8 @@ fn do_replay(path: &str) -> i32 {
                 }
             }
         }
-        replay::Replay::Sequence { property, seed, upto, clause, .. } => {
+        replay::Replay::Sequence { property, seed, upto, clause, tier, .. } => {
+            gen::THOROUGH.store(tier == "thorough", Ordering::Relaxed);
             println!("replaying the single-threaded run sequence 0..={upto} of {property} under seed {seed}");
             match seq_first_failure(&property, seed, upto + 1) {
                 Some((k, c, obs)) => {
@@ -661,6 +662,7 @@ fn cmd_trace(args: &[String]) -> i32 {
             "--seed" => seed = it.next().and_then(|v| v.parse().ok()).unwrap_or(seed),
             "--run" => run = it.next().and_then(|v| v.parse().ok()).unwrap_or(0),
             "--out" => out = it.next().cloned().unwrap_or_default(),
+            "--tier" => gen::THOROUGH.store(it.next().map(|t| t == "thorough").unwrap_or(false), Ordering::Relaxed),
             _ => {}
         }
     }
@@ -726,6 +728,7 @@ fn cmd_seqfind(args: &[String]) -> i32 {
         match a.as_str() {
             "--seed" => seed = it.next().and_then(|v| v.parse().ok()).unwrap_or(seed),
             "--runs" => runs = it.next().and_then(|v| v.parse().ok()).unwrap_or(0),
+            "--tier" => gen::THOROUGH.store(it.next().map(|t| t == "thorough").unwrap_or(false), Ordering::Relaxed),
             _ => {}
         }
     }
@@ -743,7 +746,7 @@ fn cmd_seqfind(args: &[String]) -> i32 {
 fn sequence_fallback(o: &Opts) -> Option<String> {
     let n = o.runs.min(3_000_000);
     let exe = std::env::current_exe().ok()?;
-    let out = std::process::Command::new(&exe).args(["seqfind", &o.prop, "--seed", &o.seed.to_string(), "--runs", &n.to_string()]).output().ok()?;
+    let out = std::process::Command::new(&exe).args(["seqfind", &o.prop, "--seed", &o.seed.to_string(), "--runs", &n.to_string(), "--tier", &o.tier]).output().ok()?;
     let t = String::from_utf8_lossy(&out.stdout).to_string();
     let line = t.lines().find(|l| l.starts_with("SEQFAIL "))?.to_string();
     let rest = line.strip_prefix("SEQFAIL run=")?;
@@ -751,7 +754,7 @@ fn sequence_fallback(o: &Opts) -> Option<String> {
     let (clause, observed) = rest.split_once(" observed=")?;
     let k: u64 = k.parse().ok()?;
     let path = format!("{}/{}-{}-seq{}.replay", o.replays, o.prop, o.seed, k);
-    replay::write_sequence(&path, &o.prop, o.seed, k, &o.profile, clause, observed).ok()?;
+    replay::write_sequence(&path, &o.prop, o.seed, k, &o.profile, &o.tier, clause, observed).ok()?;
     if let Err(e) = fresh_process_replay(&path, clause, k as usize, observed) {
         eprintln!("simcheck: {e}");
         return None;
@@ -774,7 +777,7 @@ fn handle_hang(o: &Opts, run: u64) -> i32 {
         Err(_) => return 2,
     };
     let mut child = match std::process::Command::new(exe)
-        .args(["trace", &o.prop, "--seed", &o.seed.to_string(), "--run", &run.to_string(), "--out", &tmp])
+        .args(["trace", &o.prop, "--seed", &o.seed.to_string(), "--run", &run.to_string(), "--out", &tmp, "--tier", &o.tier])
         .spawn()
     {
         Ok(c) => c,
@@ -877,6 +880,7 @@ fn cmd_run(o: &Opts) -> i32 {
         "simcheck: property={} tier={} seed={} runs={} workers={} profile={}",
         o.prop, o.tier, o.seed, o.runs, o.workers, o.profile
     );
+    gen::THOROUGH.store(o.tier == "thorough", Ordering::Relaxed);
     let b = run_batch(o);
     if o.digest_only {
         println!(
